@@ -92,6 +92,11 @@ class Pools:
     def literal(self, allow_dt: bool = True) -> tuple:
         rng = self.rng
         lex = self.long_lex if rng.random() < 0.03 else rng.choice(self.lexes)
+        c0 = rng.random()
+        if c0 < 0.06 and self.iri_cache:
+            lex = rng.choice(self.iri_cache)        # the same string as an IRI of this stream
+        elif c0 < 0.12:
+            lex = rng.choice(self.bnodes)           # the same string as a blank-node label
         c = rng.random()
         if c < 0.3:
             return ("lit", lex, None, None)
@@ -124,6 +129,8 @@ def gen_term(rng: random.Random, pools: Pools, slot: str, flags: dict, depth: in
     if k == "iri":
         return ("iri", pools.iri())
     if k == "bnode":
+        if pools.iri_cache and rng.random() < 0.04 and not pools.rdflib_safe:
+            return ("bnode", rng.choice(pools.iri_cache))   # label equal to an IRI string
         return ("bnode", rng.choice(pools.bnodes))
     if k == "default":
         return T.DEFAULT
